@@ -217,6 +217,20 @@ def vcJwtSignature (supported : List String) (E : Env) (issuer : String) (didOf 
     | [s] => if s.kid ≠ "" && didOf s.kid ≠ issuer then .reject else .accept vs   -- errVerificationMethodNotOfIssuer
     | _ => .reject
 
+/-! ### auth/services/oauth authz_server.go (v1 JWT bearer grant): parseAndValidateJwtBearerToken = ParseJWT with the DID key
+      resolver, then validateIssuer: `iss` must parse as a DID and becomes the requester; `checksKid` (regenerated fact):
+      the kid must be a DID URL of that very DID. -/
+
+def authzV1 (supported : List String) (checksKid : Bool) (E : Env) (issuer : String) (issuerParses : Bool)
+    (didOf : String → String) (j : Jws) : Outcome :=
+  match parseJWT supported E j with
+  | .reject => .reject
+  | .accept vs =>
+    if !issuerParses then .reject
+    else match j.sigs with
+      | [s] => if checksKid && didOf s.kid ≠ issuer then .reject else .accept vs
+      | _ => .reject
+
 /-! ### LDProof.Verify: the algorithm comes from the key handed in by the caller; the detached JWS header is not read -/
 
 structure LdEnv where
